@@ -91,10 +91,31 @@ impl LogWriter for RecW {
         Ok(())
     }
     fn flush(&self) -> std::io::Result<()> {
+        vs::cell_inc(5);
         Ok(())
     }
     fn max_log_level(&self) -> LevelFilter {
         filter_of(vs::cell_get(9))
+    }
+    fn shutdown(&self) {
+        vs::cell_inc(6);
+    }
+}
+// the writer behind the primary (Multi) writer: own counters (7 = flush, 8 = shutdown)
+struct PrimW;
+impl LogWriter for PrimW {
+    fn write(&self, _now: &mut crate::DeferredNow, _r: &log::Record) -> std::io::Result<()> {
+        Ok(())
+    }
+    fn flush(&self) -> std::io::Result<()> {
+        vs::cell_inc(7);
+        Ok(())
+    }
+    fn max_log_level(&self) -> LevelFilter {
+        LevelFilter::Trace
+    }
+    fn shutdown(&self) {
+        vs::cell_inc(8);
     }
 }
 fn dummy_format(_w: &mut dyn std::io::Write, _now: &mut crate::DeferredNow, _r: &log::Record) -> std::io::Result<()> {
@@ -407,6 +428,9 @@ fn two_setters_case(arrive: u64) {
     let (ab, db) = (any_rank(), any_rank());
     let h1 = mk_handle(a0, d0, false);
     let h2 = h1.clone();
+    // as after Logger::build(): the gate is consistent with the initial specification
+    vs::cell_set(14, 1000);
+    h1.reconfigure(spec_of(a0, d0).max_level());
     *T2.lock().unwrap() = Some((h2.clone(), ab, db));
     vs::cell_set(13, 0);
     vs::cell_set(14, arrive);
@@ -447,3 +471,51 @@ two_setters_instance!(c12_two_setters_arrive1, 1);
 // @verif prop=C12 tier=quick timeout=900 replay=two_setters bounds=same,second-call-arrives-at-schedule-point-2
 // ... arrives at schedule point 2 (if the first call has that many; otherwise after it).
 two_setters_instance!(c12_two_setters_arrive2, 2);
+// @verif prop=C12 tier=thorough timeout=900 replay=two_setters bounds=same,second-call-arrives-at-schedule-point-3
+// ... arrives at schedule point 3 (a point the current implementation does not have: the second call then runs after the first; guards against implementations with more lock acquisitions).
+two_setters_instance!(c12_two_setters_arrive3, 3);
+
+// ------------------------------------------------------------------------------------------------
+// C04: flush() / shutdown() of the handle reach the primary writer and every additional writer.
+fn mk_handle_fanout() -> LoggerHandle {
+    let primary = PrimaryWriter::multi(crate::Duplicate::None, crate::Duplicate::None, false, dummy_format, dummy_format, None, Some(Box::new(PrimW)));
+    let mut others: HashMap<String, Box<dyn LogWriter>> = HashMap::new();
+    others.push_unique("A".to_string(), Box::new(RecW));
+    others.push_unique("B".to_string(), Box::new(RecW));
+    LoggerHandle::new(Arc::new(RwLock::new(spec_of(3, 3))), Arc::new(primary), Arc::new(others))
+}
+fn cut_flw_flush(_w: &crate::writers::FileLogWriter) -> std::io::Result<()> {
+    unreachable!("VERIF-CUT FileLogWriter::flush (no file writer configured)")
+}
+fn cut_flw_shutdown(_w: &crate::writers::FileLogWriter) {
+    unreachable!("VERIF-CUT FileLogWriter::shutdown (no file writer configured)")
+}
+// @verif prop=C04 tier=probe timeout=600 bounds=Multi-primary-writer(over-a-recording-writer)+2-additional-writers,flush()-then-shutdown()
+// BUDGET GATE: no result in 400 s: LoggerHandle::flush / PrimaryWriter::shutdown discard the Result of a *virtual* flush call with `.ok()`; the merged result of the call candidates is symbolic for CBMC and the io::Error drop glue is explored (DESIGN.md 2); not registered.
+// LoggerHandle::flush() flushes the writer behind the primary channel and each additional writer (at least once each) before it returns; LoggerHandle::shutdown() shuts each of them down - so that whatever they buffered for completed log calls is written out when the call returns.
+lh_harness! {
+#[kani::unwind(6)]
+#[kani::stub(<crate::writers::FileLogWriter as crate::writers::LogWriter>::flush, cut_flw_flush)]
+#[kani::stub(<crate::writers::FileLogWriter as crate::writers::LogWriter>::shutdown, cut_flw_shutdown)]
+#[kani::stub(<crate::primary_writer::test_writer::TestWriter as crate::writers::LogWriter>::flush, crate::primary_writer::verif_harness::cut_test_flush)]
+#[kani::stub(<crate::primary_writer::std_writer::StdWriter as crate::writers::LogWriter>::flush, crate::primary_writer::verif_harness::cut_std_flush)]
+#[kani::stub(<crate::primary_writer::test_writer::TestWriter as crate::writers::LogWriter>::shutdown, crate::primary_writer::verif_harness::cut_test_shutdown)]
+#[kani::stub(<crate::primary_writer::std_writer::StdWriter as crate::writers::LogWriter>::shutdown, crate::primary_writer::verif_harness::cut_std_shutdown)]
+fn c04_handle_flush_shutdown_fanout() {
+    vs::link_all();
+    vs::cell_set(9, 0);
+    let h = mk_handle_fanout();
+    h.flush();
+    assert!(vs::cell_get(7) >= 1); // primary
+    assert!(vs::cell_get(5) >= 2); // A and B
+    let (f5, f7) = (vs::cell_get(5), vs::cell_get(7));
+    h.shutdown();
+    // every writer is shut down by the time shutdown() returns ...
+    assert!(vs::cell_get(8) >= 1 && vs::cell_get(6) >= 2);
+    // ... and the writer behind the primary channel is flushed on the way (a writer that buffers
+    // and relies on the trait's default no-op shutdown() would otherwise keep completed records)
+    assert!(vs::cell_get(7) > f7);
+    kani::cover!(vs::cell_get(5) >= f5, "executed");
+    std::mem::forget(h);
+}
+}
